@@ -23,6 +23,9 @@ CORPUS = [
     [9, 0, 'pupool', 8, 4, 'local-priority-fifo', 1],       # neighbouring PUs asleep when the whole pool is suspended
     [10, 100, 'pupool', 8, 3, 'static-priority', 1],
     [11, 0, 'pupool', 12, 6, 'abp-priority-fifo', 1],
+    [12, 0, 'blocked', 6, 3, 'local-priority-fifo', 1],     # tasks blocked on a latch belong to the pool whose PU is suspended
+    [13, 100, 'blocked', 6, 4, 'static-priority', 1],
+    [14, 0, 'blocked', 9, 2, 'abp-priority-lifo', 1],
 ]
 # only when the finding is registered in known_findings.txt (reported as KNOWN-FINDING, exit 0)
 FINDING_RUNS = [[1, 0, 'lowprio', 1, 3, 'local-priority-fifo', 1]]
@@ -49,7 +52,7 @@ def runs(rng, tier):
 
 def extra_runs(rng, tier):
     return [[rng.below(1 << 30), 400, prog, 16, n, pol, el] for pol in POLICIES for n in (2, 4)
-            for prog, el in (('pupool', 1), ('yieldpoll', 1), ('strand', 1), ('race', 1), ('pu', 1), ('pool', 0), ('refuse', 0), ('refuse', 1))]
+            for prog, el in (('blocked', 1), ('pupool', 1), ('yieldpoll', 1), ('strand', 1), ('race', 1), ('pu', 1), ('pool', 0), ('refuse', 0), ('refuse', 1))]
 
 
 def nontrivial(raw):
@@ -70,7 +73,7 @@ e2check.run(dict(
          'resume), plus unsupported requests (PU suspension without elasticity, pool suspending itself, PU suspension from the pool '
          'itself without stealing; throwing and non-throwing error_code), concurrently with task submission with/without worker hints '
          'and mixed priorities, on a second pool created through the resource partitioner for the five local_priority_queue_scheduler '
-         'policies and 2-6 workers, PRNG timing perturbation at the instrumented sites (incl. the store(sleeping)/wait window) and directed schedules (prog race: the worker is held inside that window while another OS thread resumes it; prog strand: submitters hinted to a worker are held between select_active_pu and the enqueue while that worker is suspended, non-stealing policy included; prog yieldpoll: a task polling a flag with yield() lives on the PU being suspended, the flag is raised only after the call returned, count-based verdict); all work '
+         'policies and 2-6 workers, PRNG timing perturbation at the instrumented sites (incl. the store(sleeping)/wait window) and directed schedules (prog race: the worker is held inside that window while another OS thread resumes it; prog strand: submitters hinted to a worker are held between select_active_pu and the enqueue while that worker is suspended, non-stealing policy included; prog yieldpoll: a task polling a flag with yield() lives on the PU being suspended, the flag is raised only after the call returned, count-based verdict; prog blocked: tasks suspended on a latch that is released only after suspend_processing_unit returned); all work '
          'must complete before anything is resumed; non-trivial = a worker really slept and was woken, or a request was refused; '
          'distinct = distinct argv',
     assumptions=['low priority tasks are not generated by default: the shared low priority queue is served only by the last worker '
